@@ -3,7 +3,7 @@ import json
 
 def run(ctx):
     # the oracle: matrix operators satisfy the algebraic laws on all matrices dims 0..2, entries -1..1; Trans machine histories
-    ctx.tlc_mc("MC_MatAlg", "MC_MatAlg.cfg", workers=8, coverage=False, timeout=900)
+    ctx.tlc_mc("MC_MatAlg", "MC_MatAlg.cfg", workers=8, coverage=False, timeout=900, cache=True)
     # A: TLC enumerates every small matrix (zero-dimensional shapes included)
     path, objs = ctx.tlc_gen("Gen_MatAlg", "Gen_MatAlg.cfg", workers=1)
     trace = ctx.path("trace.ndjson")
